@@ -24,6 +24,9 @@ def new_members(vm, module, cls_name, base='m'):
     n = vm.fresh('n_' + base)
     f = z3.Function('%s_at!%d' % (base, next(vm._fresh)), z3.IntSort(), Ref)
     vm.assume(n >= 0)
+    if not hasattr(vm, 'lengths'):
+        vm.lengths = []
+    vm.lengths.append(n)
     i, j = z3.Ints('i j')
     # distinct objects, all of exactly this class
     vm.assume(z3.ForAll([i, j], z3.Implies(z3.And(0 <= i, i < j, j < n), f(i) != f(j)), patterns=[z3.MultiPattern(f(i), f(j))]))
